@@ -94,7 +94,7 @@ type Stream struct {
 
 	// Timeout settings (matches HTCondor's Stream timeout behavior)
 	timeout            time.Duration // Socket timeout duration (0 = no timeout)
-	cryptoBeforeSecret bool          // Saved encryption state before sending/receiving secret
+	cryptoToggledForSecret bool      // true while prepareCryptoForSecret has switched encryption on for one secret field
 }
 
 // CEDAR protocol constants based on HTCondor's reli_sock.cpp
@@ -1247,17 +1247,25 @@ func (s *Stream) SetCryptoMode(enabled bool) bool {
 // prepareCryptoForSecret prepares encryption state before sending/receiving a secret
 // Based on HTCondor's Stream::prepare_crypto_for_secret() from stream.cpp
 func (s *Stream) prepareCryptoForSecret() {
-	s.cryptoBeforeSecret = s.encrypted
-	// Enable encryption if available
+	// Enable encryption if available and not already on. When there is nothing to
+	// toggle (the channel is already encrypted, or no key exists) this must not
+	// WRITE any stream state: a secret field can arrive on the receive path (a
+	// SECRET_MARKER inside a ClassAd from a peer using the legacy private-attribute
+	// form) while another goroutine is sending on the same stream, and the send path
+	// reads s.encrypted for every frame.
 	if s.gcm != nil && !s.encrypted {
 		s.encrypted = true
+		s.cryptoToggledForSecret = true
 	}
 }
 
 // restoreCryptoAfterSecret restores encryption state after sending/receiving a secret
 // Based on HTCondor's Stream::restore_crypto_after_secret() from stream.cpp
 func (s *Stream) restoreCryptoAfterSecret() {
-	s.encrypted = s.cryptoBeforeSecret
+	if s.cryptoToggledForSecret {
+		s.encrypted = false
+		s.cryptoToggledForSecret = false
+	}
 }
 
 // PrepareCryptoForSecret / RestoreCryptoAfterSecret expose the crypto-for-secret
